@@ -41,12 +41,14 @@ Inv_C04 ==
   /\ outcome = "none" => mon.nterm = 0
 
 (* C35: per (step, worker) RUNNING and NOT_RUNNING alternate; an InputRequiredEvent is published once *)
-Inv_C35 == ~mon.bad35 /\ ~mon.askdup
+Inv_C35 == ~mon.bad35
+Inv_C35_Ask == ~mon.askdup
 
 (* C09 / C10 *)
 Inv_C09 == ~mon.duplist
 Inv_C10 == ~mon.dupwait
 Inv_C10_Timeout == ~mon.dupto
+Inv_C10_WaiterEvent == ~mon.askdup            \* the waiter_event is published once per waiter id
 
 (* C08: recovery budget *)
 Inv_C08 == \A s \in StepsOf : \A i \in 1..Len(Ip(s)) :
